@@ -18,6 +18,28 @@ func main() {
 	switch os.Args[1] {
 	case "dev":
 		dev(os.Args[2:])
+	case "modset":
+		prog, err := vc.Load(repoRoot(), vc.DefaultPatterns)
+		if err != nil {
+			fmt.Println(err)
+			os.Exit(2)
+		}
+		for _, n := range os.Args[2:] {
+			fi := prog.Lookup(n)
+			if fi == nil {
+				fmt.Println("no such function", n)
+				continue
+			}
+			var ks []string
+			for k := range prog.ModSet(fi.Obj) {
+				ks = append(ks, k)
+			}
+			sort.Strings(ks)
+			fmt.Println(n, len(ks))
+			for _, k := range ks {
+				fmt.Println("   ", k)
+			}
+		}
 	case "replay":
 		os.Exit(replayCmd(os.Args[2]))
 	case "check":
